@@ -36,6 +36,12 @@ def _claim_numbers(enc, cl):
     if "goals" in cl:
         for g in cl["goals"]:
             yield from enc.numbers_poly(g["poly"])
+    if cl["t"] == "cdraw":
+        for pp in cl["params"]:
+            yield from enc.numbers_poly(pp)
+        if cl["fam"] == "uniform":
+            for j in range(2, cl["k"] + 2):
+                yield Fraction(1, j)
     if "thr" in cl:
         yield from E.as_dual(cl["thr"])
     if "vals" in cl:
@@ -62,6 +68,9 @@ def _enc_claim(enc, cl, D):
     if cl["t"] == "rec":
         out["rhs"] = [{"c": E.enc_s(c, D), "m": enc.poly(m, D)} for c, m in cl["rhs"]]
         out["k"] = E.enc_s(cl["k"], D)
+    if cl["t"] == "cdraw":
+        out["fam"] = cl["fam"]
+        out["params"] = [enc.poly(pp, D) for pp in cl["params"]]
     if "goals" in cl:
         out["goals"] = [{"kind": g["kind"], "k": g.get("k", 0), "poly": enc.poly(g["poly"], D)} for g in cl["goals"]]
     if cl["t"] == "inv":
